@@ -95,7 +95,9 @@ func Solve(o *Obligation, outDir string, timeoutS int, seed int, all bool) *Solv
 			case "unknown":
 				status = "unknown"
 			default:
-				if c.Err() != nil {
+				if ctx.Err() != nil {
+					status = "cancelled"
+				} else if c.Err() != nil {
 					status = "timeout"
 				} else {
 					status = "error"
